@@ -16,11 +16,13 @@ def ref(i, keys, T_ref=None):
                   model=Stub('dft%d' % i, ['get_HoRT'], positive=()))
 
 
-def refs_obj(shapes, same_T=False):
-    """References built by the real constructor (which fits the offsets)"""
+def refs_obj(shapes, same_T=False, stale=None):
+    """References built by the real constructor (which fits the offsets); `stale`: descriptors whose offsets
+    were left behind by an earlier fit (before references were appended / edited)"""
     Tr = Const(298.15) if same_T else None
+    post = None if stale is None else dict(offset=DictOf({k: Real(-50., 50.) for k in stale}), T_ref=Real(200., 400.))
     return New(RF + 'References', references=ListOf([ref(i, keys, Tr) for i, keys in enumerate(shapes)]),
-               descriptor=Const('elements'))
+               descriptor=Const('elements'), _post=post)
 
 
 SHAPES = {'1ref-1el': [['H']], '2ref-2el': [['H', 'O'], ['H', 'O']], '2ref-partial': [['H'], ['H', 'O']],
@@ -121,3 +123,18 @@ for q, dimless in (('H', 'HoRT'), ('G', 'GoRT'), ('U', 'UoRT'), ('F', 'FoRT')):
                  args=dict(self=species(), units=Const('kJ/mol'), T=T, use_references=Const(flag)), requires=['T > 0'],
                  ensures=[('same-switch-as-dimensionless',
                            "result == self.get_%s(T=T, use_references=%s) * const.R('kJ/mol/K') * T" % (dimless, flag))])
+
+# ---- re-fitting an object that was fitted before (references appended or edited since): nothing of the old fit survives ---------
+for nm, stale in (('2ref-2el', ['H']), ('2ref-partial', ['H', 'O']), ('3ref-2el(overdetermined)', ['H', 'O', 'C'])):
+    shape = SHAPES[nm]
+    keys = sorted({k for ks in shape for k in ks})
+    n = len(shape)
+    predicted = lambda i: ' + '.join("self.offset[%r] * %s" % (d, comp(i, d)) for d in keys)
+    contract(RF + 'References.fit_HoRT_offset', P, label=nm + ',fitted-before', args=dict(self=refs_obj(shape, stale=stale)),
+             ensures=[('offset-per-descriptor', 'sorted(self.offset.keys()) == %r' % keys),
+                      ('T_ref-is-the-mean', 'self.T_ref * %d == %s' % (n, ' + '.join('self.references[%d].T_ref' % i for i in range(n)))),
+                      ('residual-orthogonal-to-composition-matrix',
+                       ' and '.join('(%s) == 0' % ' + '.join(
+                           '%s * ((%s) - (%s - self.references[%d].HoRT_ref))' % (comp(i, d), predicted(i), dft(i), i)
+                           for i in range(n)) for d in keys))],
+             cross_check=False)
